@@ -236,6 +236,25 @@ def server_probes(classes):
                     if not (reply.flags & protocol.FLAGS_EXCEPTION) or type(back) is not cls or MARK not in back.args:
                         accessor_ok = False      # e.g. a getter's AttributeError answered by the instance's __getattr__
         facts["otherKindsDecideAlike"] = same
+        # a housekeeping run between the creation of a stream and its first item leaves a young stream of a connected
+        # client alone, whatever lifetime / linger limits are configured
+        from Pyro5 import config
+        saved = (config.ITER_STREAM_LIFETIME, config.ITER_STREAM_LINGER)
+        survives = True
+        try:
+            for lifetime, linger in ((0.0, 0.0), (60.0, 0.0), (3600.0, 30.0), (0.0, 30.0)):
+                config.ITER_STREAM_LIFETIME, config.ITER_STREAM_LINGER = lifetime, linger
+                S.H["exc"] = KeyError(MARK, 3)
+                r0, x0 = S.call("stream")
+                sid = bytes(r0.annotations["STRM"]).decode()
+                S.daemon._housekeeping()
+                reply, escaped = S.call("get_next_stream_item", (sid,), obj=core.DAEMON_NAME)
+                back = S.decode(reply) if reply is not None else None
+                if type(back) is not KeyError or back.args != (MARK, 3):
+                    survives = False
+        finally:
+            config.ITER_STREAM_LIFETIME, config.ITER_STREAM_LINGER = saved
+        facts["youngStreamSurvivesHousekeeping"] = survives
         facts["accessorErrorForwarded"] = accessor_ok
         # what a forwarded exception carries: its own class/args, the raising side's attributes plus exactly one more
         e = ValueError(MARK, 1)
